@@ -277,8 +277,14 @@ func genC08(r *Rng, idx int, tier string) *Scenario {
 	mix := Pick(r, 0, 1, 2, 4) // traffic steps per derivation
 	next := 0
 	var sent []int
+	var lastNonce Hex
 	for i := 0; i < n; i++ {
-		sc.Steps = append(sc.Steps, genChildStep(r, 0))
+		cs := genChildStep(r, 0)
+		if i > 0 && r.Chance(1, 4) {
+			cs.Nonce = lastNonce // the same Ni|Nr again (another Child SA of the same exchange, or a retry)
+		}
+		lastNonce = cs.Nonce
+		sc.Steps = append(sc.Steps, cs)
 		for k := 0; k < mix; k++ {
 			if r.Bool() {
 				sc.Steps = append(sc.Steps, genTrafficStep(r, 0, &next, &sent)...)
